@@ -89,6 +89,24 @@ CLAIMS.update({
          '(contract as assume/assert around the call; frame not checked).', '5 C37'),
 })
 
+CLAIMS.update({
+ 'C30': ('proof',
+         'Whole-function contract on the real compare_prepared_userspace_packages (loop over the first package closed by an '
+         'inductive loop contract over an arbitrary number of binaries): the result is exactly (12 if some binary of the first '
+         'package is absent from the second) | (or of the statuses of all compared pairs); so a removed binary always yields '
+         'bits 4|8, a changed pair always yields its bits, and 0 is returned only when nothing was removed and every pair was '
+         'clean. comparison_done_notify::operator() is proved to accumulate task statuses with |=.',
+         'Packages, the worker queue (runs the notifier once per task; its net effect is modelled through the notifier contract) '
+         'and the per-pair comparison are stubs; agreement of per-pair verdicts with abidiff is not decided. Checked without --dfcc '
+         '(assume/assert around the call).', '5 C30'),
+ 'C14': ('proof',
+         'The ordering functor that fixes the order of abipkgdiff results, elf_size_is_greater (real text), equals the '
+         'lexicographic order on (size sum descending, name ascending) for all inputs, hence is a strict weak order whose only '
+         'ties are equal keys; no signed overflow for sizes < 2^62.',
+         'Scoped to that functor. Absence of pointer-ordered iteration in the writer/comparison engine (sort_types, sort_string_* '
+         'helpers over IR) is not decided.', '5 C14'),
+})
+
 NA = {
  'C01': 'rests on reflexivity of ~40 mutually recursive equals() overloads, canonicalisation and DIE de-duplication over arbitrary type graphs (abg-ir.cc, abg-dwarf-reader.cc); outside the C++ subset CBMC 6.11 parses and not expressible as a contract on any reachable function',
  'C02': 'writer/reader pair over the whole IR and libxml2 trees; outside front-end reach (attribute escaping is claimed under C04)',
